@@ -48,11 +48,13 @@ class Ctx:
         # is known about the field is known about the getter's result
         for k in list(self.pure):
             b = self.B[k]
+            callees = [c for c in self.cg.local_edges.get(k, ()) if self.B[c]['def_kind'] != 'Closure']
             if b['def_kind'] == 'AssocFn' and not b.get('impl_trait') and b['arg_count'] == 1 and \
-                    len([x for x in b['blocks'] if not x['cleanup']]) <= 3 and not self.cg.local_edges.get(k):
+                    len([x for x in b['blocks'] if not x['cleanup']]) <= 8 and not callees:
                 a = self.T[b['locals'][1]['ty']]
                 r = self.T[b['locals'][0]['ty']]
-                borrows = r['k'] == 'ref' or (r.get('adt') == 'std::option::Option' and '&' in r['s'])
+                # the result borrows from self: &T, Option<&T>, Result<&T, _>
+                borrows = r['k'] == 'ref' or (r.get('adt') in ('std::option::Option', 'std::result::Result') and '&' in r['s'])
                 if a['k'] == 'ref' and borrows:
                     self.pure.discard(k)
         self._graphs = {}
